@@ -2,7 +2,8 @@ SPEC = dict(
     claimed=True,
     title='The fan receives the nearest value it supports',
     props_file='Props/C12.v', props_mod='Props.C12',
-    proof_files=['Proofs/Closest.v', 'Proofs/LeafTie.v', 'Drv/Closest.v'],
+    props_extra=[('Props/C12Mono.v', 'Props.C12Mono')],
+    proof_files=['Proofs/Closest.v', 'Proofs/ClosestMono.v', 'Proofs/LeafTie.v', 'Drv/Closest.v'],
     tie_vo=['Proofs/LeafTie.vo'],
     drivers=[dict(name='closest', drv_mod='Drv.Closest', drv_file='Drv/Closest.v', shard=300)],
     rule='exhaustive: every map over every subset of a small key universe with outputs from a small alphabet '
@@ -14,7 +15,9 @@ SPEC = dict(
                  'getClosest tie: gen/Leaf.v regenerated from internal/util/math.go, equal to the model by reflexivity'],
     finding_codes={}, finding_text={},
     level_text='Theorems C12_nearest/C12_exact/C12_supported/C12_written hold for every strictly sorted key list of any length and every '
-               'integer request (induction on the binary-search interval, axiom-free); the model is tied to the Go code by a '
+               'integer request (induction on the binary-search interval, axiom-free); C12_selection_monotone / C12_supported_fixed_point / '
+               'C12_written_monotone (Props/C12Mono.v) add that the selection never inverts the order of two requests, that a supported '
+               'request is handed through unchanged, and that with non-decreasing outputs the written value is monotone in the request; the model is tied to the Go code by a '
                'reflexivity lemma on the regenerated getClosest and by a differential run of the real FindClosest / '
                'ExtractKeysWithDistinctValues / setPwm on exhaustive small and random full-size maps.',
     level_note='trusted: Coq kernel; hand-written model of FindClosest/ExtractKeysWithDistinctValues/setPwm, agreement with the code observed on the generated cases; outputs != -1',
